@@ -152,6 +152,9 @@ func cmdCheck(args []string) int {
 			}
 		}
 	}
+	for _, j := range jobs {
+		prepareSolve(j.g)
+	}
 	allRes := make([][]*Result, len(jobs))
 	var jwg sync.WaitGroup
 	for i, j := range jobs {
@@ -280,6 +283,9 @@ func (r *propReport) add(e *Engine, g *Gen, key string, res []*Result) {
 	m := map[string]*agg{}
 	rank := map[string]int{"proved": 0, "cover-ok": 0, "cover-unknown": 1, "noanswer": 2, "refuted": 3, "cover-fail": 3}
 	for _, x := range res {
+		if r.verbose && x.Status != "proved" && !strings.HasPrefix(x.Status, "cover") {
+			fmt.Printf("    site: %s %s %s %dms %s\n", x.Obl.Name, x.Status, x.Solver, x.Ms, x.Obl.Pos)
+		}
 		a, ok := m[x.Obl.Name]
 		if !ok {
 			a = &agg{status: x.Status, solver: x.Solver, pos: x.Obl.Pos, worst: x}
@@ -310,6 +316,8 @@ func (r *propReport) add(e *Engine, g *Gen, key string, res []*Result) {
 		}
 		r.nObl++
 		switch a.status {
+		case "engine-error":
+			r.undecided = append(r.undecided, fmt.Sprintf("obligation=%s reason=ill-formed-query:%s", name, strings.ReplaceAll(truncate(strings.SplitN(a.worst.Raw, "\n", 2)[0], 120), " ", "_")))
 		case "proved":
 			r.nDis++
 			if kf := r.findKnown(name); kf != nil {
